@@ -376,7 +376,7 @@ func (sl *MultiStringLiteral) WriteTo(cw *CodeWriter) {
 	cw.AddMapping(sl.Token.Start)
 	cw.WriteRune('`')
 	// the lexer unescapes backticks, so they are escaped again here
-	cw.WriteString(strings.ReplaceAll(sl.Value, "`", "\\`"))
+	cw.WriteLiteralText(strings.ReplaceAll(sl.Value, "`", "\\`"))
 	cw.WriteRune('`')
 }
 
